@@ -406,6 +406,12 @@ func (e *Engine) ensureInit(g *Goroutine, pkg *ssa.Package) {
 		return
 	}
 	e.p.initDone[pkg] = true
+	skip := false
+	for _, sp := range e.cfg.SkipInit {
+		if sp == pkg.Pkg.Path() {
+			skip = true
+		}
+	}
 	for _, m := range pkg.Members {
 		if gl, ok := m.(*ssa.Global); ok {
 			if _, ok := e.p.globals[gl]; !ok {
@@ -414,7 +420,7 @@ func (e *Engine) ensureInit(g *Goroutine, pkg *ssa.Package) {
 		}
 	}
 	initFn := pkg.Func("init")
-	if initFn == nil || len(initFn.Blocks) == 0 {
+	if initFn == nil || len(initFn.Blocks) == 0 || skip {
 		return
 	}
 	e.callNestedRaw(g, &Closure{Fn: initFn}, nil, true)
@@ -678,6 +684,10 @@ func (e *Engine) step(g *Goroutine) stepResult {
 		if cl == nil && g.panic != nil {
 			return stepOK
 		}
+		if cl.Fn != nil && e.goAsCall(cl.Fn) {
+			e.invoke(g, cl, args, nil, false, false)
+			return stepOK
+		}
 		fr.pc++
 		e.spawn(g, cl, args)
 		return stepYield
@@ -904,4 +914,14 @@ func (e *Engine) panicMessage(v Iface) string {
 		}
 	}
 	return fmt.Sprintf("panic(%s)", v.T)
+}
+
+func (e *Engine) goAsCall(fn *ssa.Function) bool {
+	name := fn.String()
+	for _, p := range e.cfg.GoAsCall {
+		if strings.HasPrefix(name, p) {
+			return true
+		}
+	}
+	return false
 }
